@@ -2343,14 +2343,14 @@ func (interp *Interpreter) cfg(root *node, sc *scope, importPath, pkgName string
 					c.child[0].tnext = c
 					c.start = c.child[0].start
 
-					if i < l-1 && len(body.child) > 0 && body.lastChild().kind == fallthroughtStmt {
+					if next := nextClause(clauses, i); next != nil && len(body.child) > 0 && body.lastChild().kind == fallthroughtStmt {
 						if n.kind == typeSwitch {
 							err = body.lastChild().cfgErrorf("cannot fallthrough in type switch")
 						}
-						if len(clauses[i+1].child) == 0 {
+						if len(next.child) == 0 {
 							body.tnext = n // Fallthrough to next with empty body, just exit.
 						} else {
-							body.tnext = clauses[i+1].lastChild().start
+							body.tnext = next.lastChild().start
 						}
 					} else {
 						body.tnext = n // Exit switch at end of clause body.
@@ -2416,12 +2416,13 @@ func (interp *Interpreter) cfg(root *node, sc *scope, importPath, pkgName string
 						c.start = body.start
 					}
 					// If last case body statement is a fallthrough, then jump to next case body
+					next := nextClause(clauses, i)
 					switch {
-					case i < l-1 && len(body.child) > 0 && body.lastChild().kind == fallthroughtStmt:
-						if len(clauses[i+1].child) == 0 {
+					case next != nil && len(body.child) > 0 && body.lastChild().kind == fallthroughtStmt:
+						if len(next.child) == 0 {
 							body.tnext = n // Fallthrough to next with empty body, just exit.
 						} else {
-							body.tnext = clauses[i+1].lastChild().start
+							body.tnext = next.lastChild().start
 						}
 					default:
 						body.tnext = n
@@ -3640,6 +3641,18 @@ func isConstString(n *node) bool {
 // the statement may be a result variable, to read before it is overwritten.
 func isResultOf(n *node, sc *scope) bool {
 	return n.anc.kind == returnStmt && (len(n.anc.child) == 1 || !namedResults(sc.def))
+}
+
+// nextClause returns the clause which follows clauses[i] in the source, or nil.
+// The default clause may have been moved to the last position.
+func nextClause(clauses []*node, i int) *node {
+	var next *node
+	for _, c := range clauses {
+		if c.pos > clauses[i].pos && (next == nil || c.pos < next.pos) {
+			next = c
+		}
+	}
+	return next
 }
 
 func isBlank(n *node) bool {
